@@ -16,7 +16,11 @@ RUN_MODULE = "Run.C08Run"
 VERDICT_FN = "verdict_any"
 CHUNK = 300
 
-NAMES = ["x", "valve", "nothing", "android", "orbit", "v1", "a", "b_v", "notv", "vv"]
+NAMES = ["x", "valve", "nothing", "android", "orbit", "v1", "a", "b_v", "notv", "vv",
+         # names the MACHINE reserves for itself (a state id, reserved words): as guard names they can only be
+         # provided by the model or a listener
+         "s0", "states", "send"]
+RESERVED_FROM = 10
 OPS = {"==": "CEq", "!=": "CNe", "<": "CLt", "<=": "CLe", ">": "CGt", ">=": "CGe"}
 VALUES = [True, False, 0, 1, 2, 5, None, {"s": 0}, {"s": 1}, {"s": 2}, {"l": []}, {"l": [0]}]
 CMP_VALUES = [0, 1, 2, 5, True, False, {"s": 1}, {"s": 2}]
@@ -225,6 +229,14 @@ def make_classes(sc):
     # metaclass onto every non-final state, i.e. onto s0)
     body["go"] = body["s0"].from_.any(**kw) if sc.get("via_any") else body["s0"].to.itself(**kw)
     body.update(mk(0))
+    if sc.get("decor_list"):
+        # the guard is a method of the machine attached with the decorator syntax to a LIST of transitions
+        # (one per state; the event alternates between them): `@go.unless` / `@go.cond`
+        body["s1"] = State()
+        tl = body["s0"].to(body["s1"]) | body["s1"].to(body["s0"])
+        name = NAMES[sc["ast"][1]]
+        body[name] = (tl.cond if sc["expected"] else tl.unless)(body[name])
+        body["go"] = tl
     M = type(StateMachine)("M", (StateMachine,), body)
     Mdl = type("Mdl", (), dict(mk(1), state=None))
     Lst = type("Lst", (), mk(2))
@@ -435,7 +447,7 @@ def gen_case(rng, depth):
     cmpy = has_cmp(a)
     provide = {}
     for n in used:
-        provide[str(n)] = (rng.choice([0, 0, 1, 2]), rng.choice(["property", "method", "attr"]))
+        provide[str(n)] = (rng.choice([0, 0, 1, 2] if n < RESERVED_FROM else [1, 2]), rng.choice(["property", "method", "attr"]))
     envs = []
     for _ in range(rng.randint(1, 4)):
         # ordering comparisons are modelled for numbers, booleans and strings (None and mixed kinds raise
@@ -458,7 +470,7 @@ def gen_case(rng, depth):
         if not has_cmp(a2) or cmpy:
             for n in names_in(a2, []):
                 if str(n) not in provide:
-                    provide[str(n)] = (rng.choice([0, 0, 1, 2]), rng.choice(["property", "method", "attr"]))
+                    provide[str(n)] = (rng.choice([0, 0, 1, 2] if n < RESERVED_FROM else [1, 2]), rng.choice(["property", "method", "attr"]))
                     for env in envs:
                         env[str(n)] = rng.choice(CMP_VALUES + [None] if cmpy else VALUES)
             sc["second"] = {"ast": a2, "canon": c2, "text": render(t2, alt, rng) if alt else c2,
@@ -503,6 +515,10 @@ def gen_case(rng, depth):
         if a[0] == "n" and not sc.get("second") and rng.random() < 0.7:
             prov, _how = provide[str(a[1])]
             provide[str(a[1])] = (prov, rng.choice(["aw_object", "aw_future"]))
+    if (a[0] == "n" and not sc.get("second") and not sc.get("late_twin")
+            and not str(provide[str(a[1])][1]).startswith("aw_") and a[1] < RESERVED_FROM and rng.random() < 0.5):
+        provide[str(a[1])] = (0, "method")
+        sc["decor_list"], sc["via_any"] = True, False
     return sc
 
 
